@@ -62,7 +62,7 @@ def analyse_C10(cases, rep):
         info = S.parse_info(xi)
         if info is None:
             rep.violation(payload(c, kind='submdspan_mapping-undefined-on-valid-slices', impl=xi)); continue
-        at_end = any((p[0] in 'rt' and int(p.split(':')[1]) == e) or (p[0] in 'sS' and int(p.split(':')[1]) == e) for p, e in zip(c.sl, c.ext))
+        at_end = any((p[0] in 'rt' and int(p.split(':')[1]) == e) or (p[0] in 'sSQ' and int(p.split(':')[1]) == e) for p, e in zip(c.sl, c.ext))
         if at_end: n_end += 1
         rep.nontrivial(c.base())
         sspan = S.src_span(c)
